@@ -112,6 +112,11 @@ def similarity(ctx, n):
     for k in range(n):
         kind = ['rect', 'para', 'tri'][k % 3]
         Pi, ni, Pj, nj = geomgen.detached_pair(ctx.rng, kind)
+        ext0 = np.abs(np.concatenate([np.roll(Pi, -1, 0) - Pi, np.roll(Pj, -1, 0) - Pj]))
+        if np.any((ext0 > 1e-6) & (ext0 < 5e-3)):
+            # the untransformed pair itself sits in the per-axis cut-off band (same rule as below)
+            ctx.count('similarity.skipped_cutoff_band_base')
+            continue
         base = universal.universal_form_factor(Pi.copy(), ni.copy(), ffref.area(Pi), Pj.copy(), nj.copy())
         R = geomgen.rand_rotation(ctx.rng)
         t = ctx.rng.uniform(-50, 50, size=3)
